@@ -12,7 +12,7 @@ from typing import Dict, List, Optional, Tuple
 
 from ..astutil import attr_chain, call_name, const_value, set_parents, stmts_of, walk_no_nested, ancestors
 from ..core import OK, UNDECIDED, VIOLATION, AnalysisError, ClassInfo, FuncInfo, Repo, Report, unparse
-from ..polarity import C, CONST, D, I, T, TOP_ALL, PV, Polarity, is_top, mk
+from ..polarity import C, CONST, D, I, M, T, TOP_ALL, PV, Polarity, is_top, mk
 
 EXPLANATION = (
     "Polarity dataflow (abstract interpretation over {const, increasing, decreasing, unknown} per seed, with signs and constellation-idiom tags) "
@@ -178,10 +178,15 @@ def decide_producer(repo, rep, ci, fi, v: PV, r: ast.Return, interp: Polarity) -
             rep.violation("POLARITY-PRODUCER", fi, construct, "LLR sign is inverted: it is increasing in the distance to the bit-0 points and decreasing in the distance to the bit-1 points (positive would mean bit 1)", trace=trace + interp.unknown_ops[:3], node=r)
         elif T in (d0, d1):
             rep.undecided("POLARITY-PRODUCER", fi, construct, f"polarity could not be decided (D0:{d0}, D1:{d1})", trace=trace + interp.unknown_ops[:6], node=r)
+        elif M in (d0, d1):
+            rep.violation("POLARITY-PRODUCER", fi, construct, f"the LLR is not a monotone function of the nearest-point distances (D0:{d0}, D1:{d1}): alternatives/outputs with opposite polarity or a reduction that selects the farthest point", trace=trace + interp.definite[:4], node=r)
         else:
             rep.violation("POLARITY-PRODUCER", fi, construct, f"LLR must depend on both subsets with opposite polarity (found D0:{d0}, D1:{d1})", trace=trace, node=r)
         return 1
     py = v.p("y")
+    if py == M and not is_top(v):
+        rep.violation("POLARITY-PRODUCER", fi, construct, "parts of the soft output are increasing and parts are decreasing in the received amplitude: one of them has the wrong sign", trace=trace + interp.definite[:4], node=r)
+        return 1
     if is_top(v) or py == T:
         rep.undecided("POLARITY-PRODUCER", fi, construct, "polarity of the LLR in the received value could not be decided", trace=trace + interp.unknown_ops[:6], node=r)
         return 1
@@ -336,6 +341,8 @@ def judge_dec(rep: Report, rule: str, fi, construct: str, v: PV, seed: str, node
         rep.violation(rule, fi, construct, "decided bit is INCREASING in the LLR: positive LLRs decide bit 1, contrary to the convention positive = bit 0", trace=trace, node=node)
     elif p == C:
         rep.violation(rule, fi, construct, "the decision does not depend on the LLR", trace=trace, node=node)
+    elif p == M:
+        rep.violation(rule, fi, construct, "alternatives of the decision have opposite polarity in the LLR: one of them decides bit 1 for positive LLRs", trace=trace + interp.definite[:4], node=node)
     else:
         rep.undecided(rule, fi, construct, "polarity could not be decided", trace=trace + interp.unknown_ops[:6], node=node)
 
